@@ -33,13 +33,13 @@ ADDENDA = {
  "C08": " Also: write faults as the product of call index x {persistent, one-shot} x accepted byte count (0, 1, 2, half, len-2, len-1, len) on every write path.",
  "C09": " Also: the product of reader behaviours (all/<=n/packets of n/two pieces x EOF alone or with the final bytes x empty reads) bodies above 64 KiB in front of another tag, and bodies of 2^24-12..2^24-1 bytes.",
  "C11": " Also: object histories (91 steps: SetASC, writes through ASC(), Encode, Decode of own and ISO-writer frames, failing calls) in front of every frame, and every sequence of 1-3 (4) of 16 boundary raw lengths encoded on one object.",
- "C12": " Also: parse -> change one exported field -> marshal against the ISO writer (all 256 headers x all 128 settable values, histories of depth 2/3), and parameter-set payloads whose leading bytes correlate with the record's profile/compatibility/level.",
- "C13": " Also: compression levels {-2,-1,0,1,9} (all -2..9) in every family, settings changed between messages, one prepared message shared by differently configured connections, and raw clients/servers speaking 19 extension offers / 10 responses and using context takeover whenever the negotiated response permits it.",
- "C14": " Also: one Close frame for every code at the class boundaries (41; thorough all 65536) x 483 reasons built from 69 well- and ill-formed UTF-8 sequences, in 24 receiver states/configurations, and every byte string <= 3 (4) over the RFC 3629 boundary bytes as reason.",
+ "C12": " Also: parse -> change one exported field -> marshal against the ISO writer (all 256 headers x all 128 settable values, histories of depth 2/3), and parameter-set payloads whose leading bytes correlate with the record's profile/compatibility/level; one object receiving every sequence of 1-3 (4) UnmarshalBinary calls, compared with a fresh object.",
+ "C13": " Also: compression levels {-2,-1,0,1,9} (all -2..9) in every family, settings changed between messages, one prepared message shared by differently configured connections, and raw clients/servers speaking 19 extension offers / 10 responses and using context takeover whenever the negotiated response permits it; ReadFrom/io.Copy over the product of source chunkings x {EOF alone, EOF with the last bytes} x empty reads x layouts.",
+ "C14": " Also: one Close frame for every code at the class boundaries (41; thorough all 65536) x 483 reasons built from 69 well- and ill-formed UTF-8 sequences, in 24 receiver states/configurations, and every byte string <= 3 (4) over the RFC 3629 boundary bytes as reason; the read limit with 0-2 (3) control frames in every slot between the fragments of messages around L and 2L.",
  "C15": " Also: a one-shot transport write failure (timeout/plain error, nothing/half accepted) at every position of the write history, and WriteControl lock-wait timeouts as costed scheduler choices.",
- "C16": " Also: multi-signature (general JSON) objects with every bit of every protected header, signature and payload flipped, and a header-injection family (crit, alg overrides, algorithm confusion, absent/empty signatures, forgeries by other keys) in the protected and unprotected header; signer/encrypter histories (one instance, 2-3 (4) calls with changing embed/nonce/compression/AAD, every object examined only afterwards).",
+ "C16": " Also: multi-signature (general JSON) objects with every bit of every protected header, signature and payload flipped, and a header-injection family (crit, alg overrides, algorithm confusion, absent/empty signatures, forgeries by other keys) in the protected and unprotected header; signer/encrypter histories (one instance, 2-3 (4) calls with changing embed/nonce/compression/AAD, every object examined only afterwards); multi-recipient JWE over every ordered pair and triple of key-management algorithms with distinct keys.",
  "C18": " Also: every history of up to 4 (6) operations over Switch(3 writers)/Close/10 logging calls against a writer-state model, 13 scheduled pre-histories, and the 7 formatted variants with 13 (format, arguments) pairs.",
- "C19": " Also: 51 request targets (callback absent/empty/repeated/near-miss/percent-encoded) x 182 (407) handler kinds, and 118 string atoms (every C0/C1 control, DEL, invalid UTF-8, U+2028/9, astral runes, JSON syntax) through 26 carriers; one handler object serving 1-3 (4) requests while the value behind it changes, compared with a fresh handler.",
+ "C19": " Also: 51 request targets (callback absent/empty/repeated/near-miss/percent-encoded) x 182 (407) handler kinds, and 118 string atoms (every C0/C1 control, DEL, invalid UTF-8, U+2028/9, astral runes, JSON syntax) through 26 carriers; one handler object serving 1-3 (4) requests while the value behind it changes, compared with a fresh handler; histories in which oh.Server and the Filter* variables change between responses.",
  "C20": " Also: lifecycle histories over Start/Close/sample/wait (restart, reads between sampling instants).",
 }
 PENDING_REASON = "check not built yet in this snapshot of /verif (work in progress; see DESIGN.md for the planned model-checking design)"
